@@ -1058,7 +1058,7 @@ def _build_lambda(node: ast.Lambda, parent: Module | Class, **kwargs: Any) -> Ex
                 annotation=None,
                 default=default
                 if isinstance(default, str)
-                else safe_get_expression(default, parent=parent, parse_strings=False),
+                else get_expression(default, parent=parent, parse_strings=False),
             )
             for name, _, kind, default in get_parameters(node.args)
         ],
